@@ -6,7 +6,7 @@
 // VF-LEVEL: bounded-exhaustive evaluation of the real functions on fixed lattices including ulp-neighbourhoods of every branch switch; judged against an independent reference (scipy.special validated against 40-digit mpmath on a sub-lattice in the same run) and against tolerance-free order/identity oracles; nothing is known about arguments between lattice points
 // VF-ASSUME: scipy.special (ndtr, gammainc, betainc and their inverses) is accurate to 1e-15/1e-13/1e-13 absolute on the whole lattice as it is on the validated sub-lattice (every 16th normal/gamma point, every 41st beta point against mpmath at 40 digits);; IEEE-754 double arithmetic, glibc libm;; the exact cdfs are monotone, so bracket membership decides |F(q)-p|<=1e-8 exactly
 // VF-TECHNIQUE: exhaustive lattice evaluation with reference table and exact order/identity oracles
-// VF-BUDGET_QUICK: 150
+// VF-BUDGET_QUICK: 120
 #include "vf.hpp"
 #include <Bpp/Numeric/Random/RandomTools.h>
 #include <Bpp/Numeric/NumConstants.h>
@@ -191,6 +191,18 @@ static void judgeQuantileLine(vf::Case& c, Findings& fd, const QSpec& qs, const 
   if (judged) c.nontrivial();
 }
 
+// a quantile line (one parameter point, p ascending) is cut into segments of <= SEGQ+1 points (neighbouring segments share one point,
+// so every neighbour pair is compared) to keep the work of one case small
+struct Seg { uint64_t line, start, n; };
+static std::vector<Seg> segments(const Sec& L, int startCol, uint64_t SEGQ) {
+  std::vector<Seg> v;
+  for (uint64_t l = 0; l < L.rows; ++l) {
+    uint64_t s0 = (uint64_t)L.row(l)[startCol], n = (uint64_t)L.row(l)[startCol + 1];
+    for (uint64_t o = 0; o + 1 < n || (n == 1 && o == 0); o += SEGQ) v.push_back(Seg{l, s0 + o, std::min<uint64_t>(SEGQ + 1, n - o)});
+  }
+  return v;
+}
+
 // rounding bound of incompleteGamma at argument t, shape a: the prefactor exp(a ln t - t - lnGamma(a)) carries the absolute error of its
 // exponent (<= 8 eps (|a ln t| + t + |lnGamma a|)) as relative error of a result <= 1; summation of < 1000 positive terms adds < 2048 eps
 static double rbGamma(double t, double a) {
@@ -270,7 +282,36 @@ int main(int argc, char** argv) {
   ApplicationTools::message = nul; ApplicationTools::warning = nul; ApplicationTools::error = nul;
   std::string err;
   if (!loadTable(err)) { R.harnessFail("reference table: " + err); return R.finish(); }
-  const double CT = 10.0;
+  const double CT = 1.0, CTQ = 2.0;   // a line takes milliseconds; a timed-out case is re-run alone with 10x the budget by the engine before it counts as a hang
+
+  // ================= invalid region and ends of the probability range =================
+  {
+    static std::vector<Inv> IL = invalidList();
+    R.space("invalid-region+probability-ends:calls" + str(IL.size()), IL.size(), [=](uint64_t idx, vf::Case& c) {
+      const Inv& I = IL[idx];
+      c.site(("RandomTools::" + I.fn).c_str());
+      Call r = call(I.f);
+      bool ok; std::string got;
+      if (r.threw) { ok = (I.accept & EXC) != 0; got = "exception(" + r.what + ")"; c.tag("invalid:exception"); }
+      else {
+        got = num(r.v);
+        ok = ((I.accept & VAL) && r.v == I.v1) || ((I.accept & VAL2) && r.v == I.v2) || ((I.accept & NEG) && r.v < 0) || ((I.accept & NANV) && std::isnan(r.v));
+        c.tag(ok ? ((I.cls == "p=0" || I.cls == "p=1") ? "ends:documented-value" : "invalid:documented-sentinel-or-signal") : "invalid:plausible-number");
+      }
+      c.nontrivial();
+      if (!ok) {
+        std::string exp;
+        if (I.accept & EXC) exp += "exception ";
+        if (I.accept & VAL) exp += num(I.v1) + " ";
+        if (I.accept & VAL2) exp += num(I.v2) + " ";
+        if (I.accept & NEG) exp += "negative ";
+        if (I.accept & NANV) exp += "NaN ";
+        bool end = (I.cls == "p=0" || I.cls == "p=1");
+        c.fail(std::string(end ? "ends|" : "invalid|") + I.fn + "|" + I.cls, I.text + " returned " + got + "; documented/accepted: " + exp);
+      }
+      if (idx < 2) c.sample(I.text + " -> " + got);
+    }, CT);
+  }
 
   // ================= normal cdf =================
   {
@@ -419,23 +460,25 @@ int main(int argc, char** argv) {
       judgeQuantileLine(c, fd, qs, P, start, n, [](double p) { return RandomTools::qNorm(p); }, [](double x) { return RandomTools::pNorm(x); }, [](double v) { return v == -9999; });
       c.tag("line:qNorm");
       fd.flush(c, "qNorm segment " + str(idx));
-    }, CT);
+    }, CTQ);
   }
   {
     const Sec& L = TBL["qchi_L"]; const Sec& P = TBL["qchi_P"];
-    R.space("qChisq:lines" + str(L.rows) + ":points" + str(P.rows), L.rows, [=](uint64_t idx, vf::Case& c) {
-      double df = L.row(idx)[0]; uint64_t start = (uint64_t)L.row(idx)[1], n = (uint64_t)L.row(idx)[2];
+    static std::vector<Seg> SG = segments(L, 1, 1024);
+    R.space("qChisq:lines" + str(L.rows) + ":points" + str(P.rows) + ":segments" + str(SG.size()), SG.size(), [=](uint64_t idx, vf::Case& c) {
+      double df = L.row(SG[idx].line)[0]; uint64_t start = SG[idx].start, n = SG[idx].n;
       Findings fd; c.site("RandomTools::qChisq");
       QSpec qs{"qChisq", 0.0, INF, 0.000002, 0.999998, false};
       judgeQuantileLine(c, fd, qs, P, start, n, [=](double p) { return RandomTools::qChisq(p, df); }, [=](double x) { return RandomTools::pChisq(x, df); }, [](double v) { return v == -1; });
       c.tag("line:qChisq");
       fd.flush(c, "qChisq(p,df=" + num(df) + ")");
-    }, CT);
+    }, CTQ);
   }
   {
     const Sec& L = TBL["qgam_L"]; const Sec& P = TBL["qgam_P"];
-    R.space("qGamma:lines" + str(L.rows) + ":points" + str(P.rows), L.rows, [=](uint64_t idx, vf::Case& c) {
-      double alpha = L.row(idx)[0], beta = L.row(idx)[1]; uint64_t start = (uint64_t)L.row(idx)[2], n = (uint64_t)L.row(idx)[3];
+    static std::vector<Seg> SG = segments(L, 2, 1024);
+    R.space("qGamma:lines" + str(L.rows) + ":points" + str(P.rows) + ":segments" + str(SG.size()), SG.size(), [=](uint64_t idx, vf::Case& c) {
+      double alpha = L.row(SG[idx].line)[0], beta = L.row(SG[idx].line)[1]; uint64_t start = SG[idx].start, n = SG[idx].n;
       Findings fd; c.site("RandomTools::qGamma");
       QSpec qs{"qGamma", 0.0, INF, 0.000002, 0.999998, false};
       judgeQuantileLine(c, fd, qs, P, start, n, [=](double p) { return RandomTools::qGamma(p, alpha, beta); }, [=](double x) { return RandomTools::pGamma(x, alpha, beta); }, [](double v) { return v < 0; });
@@ -450,12 +493,13 @@ int main(int argc, char** argv) {
       }
       c.tag("line:qGamma");
       fd.flush(c, "qGamma(p,alpha=" + num(alpha) + ",beta=" + num(beta) + ")");
-    }, CT);
+    }, CTQ);
   }
   {
     const Sec& L = TBL["qbet_L"]; const Sec& P = TBL["qbet_P"];
-    R.space("qBeta:lines" + str(L.rows) + ":points" + str(P.rows), L.rows, [=](uint64_t idx, vf::Case& c) {
-      double a = L.row(idx)[0], b = L.row(idx)[1]; uint64_t start = (uint64_t)L.row(idx)[2], n = (uint64_t)L.row(idx)[3];
+    static std::vector<Seg> SG = segments(L, 2, 256);
+    R.space("qBeta:lines" + str(L.rows) + ":points" + str(P.rows) + ":segments" + str(SG.size()), SG.size(), [=](uint64_t idx, vf::Case& c) {
+      double a = L.row(SG[idx].line)[0], b = L.row(SG[idx].line)[1]; uint64_t start = SG[idx].start, n = SG[idx].n;
       Findings fd; c.site("RandomTools::qBeta");
       QSpec qs{"qBeta", 0.0, 1.0, 0.0, 1.0, false};
       judgeQuantileLine(c, fd, qs, P, start, n, [=](double p) { return RandomTools::qBeta(p, a, b); }, [=](double x) { return RandomTools::pBeta(x, a, b); }, [](double) { return false; });
@@ -467,45 +511,20 @@ int main(int argc, char** argv) {
       c.tag("line:qBeta");
       fd.flush(c, "qBeta(p,a=" + num(a) + ",b=" + num(b) + ")");
       if (idx == 100) c.sample("qBeta(" + num(P.row(start + n / 3)[0]) + "," + num(a) + "," + num(b) + ")=" + num(RandomTools::qBeta(P.row(start + n / 3)[0], a, b)) + " bracket [" + num(P.row(start + n / 3)[1]) + "," + num(P.row(start + n / 3)[2]) + "]");
-    }, 30.0);
+    }, 3.0);
   }
 
-  // ================= invalid region and ends of the probability range =================
-  {
-    static std::vector<Inv> IL = invalidList();
-    R.space("invalid-region+probability-ends:calls" + str(IL.size()), IL.size(), [=](uint64_t idx, vf::Case& c) {
-      const Inv& I = IL[idx];
-      c.site(("RandomTools::" + I.fn).c_str());
-      Call r = call(I.f);
-      bool ok; std::string got;
-      if (r.threw) { ok = (I.accept & EXC) != 0; got = "exception(" + r.what + ")"; c.tag("invalid:exception"); }
-      else {
-        got = num(r.v);
-        ok = ((I.accept & VAL) && r.v == I.v1) || ((I.accept & VAL2) && r.v == I.v2) || ((I.accept & NEG) && r.v < 0) || ((I.accept & NANV) && std::isnan(r.v));
-        c.tag(ok ? ((I.cls == "p=0" || I.cls == "p=1") ? "ends:documented-value" : "invalid:documented-sentinel-or-signal") : "invalid:plausible-number");
-      }
-      c.nontrivial();
-      if (!ok) {
-        std::string exp;
-        if (I.accept & EXC) exp += "exception ";
-        if (I.accept & VAL) exp += num(I.v1) + " ";
-        if (I.accept & VAL2) exp += num(I.v2) + " ";
-        if (I.accept & NEG) exp += "negative ";
-        if (I.accept & NANV) exp += "NaN ";
-        bool end = (I.cls == "p=0" || I.cls == "p=1");
-        c.fail(std::string(end ? "ends|" : "invalid|") + I.fn + "|" + I.cls, I.text + " returned " + got + "; documented/accepted: " + exp);
-      }
-      if (idx < 2) c.sample(I.text + " -> " + got);
-    }, CT);
-  }
-
-  R.expectSeen("invalid:exception");
-  R.expectSeen("invalid:documented-sentinel-or-signal");
-  R.expectSeen("ends:documented-value");
-  for (const char* k : {"line:pNorm", "line:gamma-cdf", "line:chisq-cdf", "line:pBeta", "line:qNorm", "line:qChisq", "line:qGamma", "line:qBeta",
-                        "branch:gamma:series", "branch:gamma:continued-fraction", "branch:beta:power-series", "branch:beta:tail-swapped", "branch:beta:continued-fraction-unswapped",
-                        "close-pairs-judged:pGamma", "close-pairs-judged:pChisq", "close-pairs-judged:pBeta", "close-pairs-judged:pNorm", "documented-sentinel-outside-documented-p-range:qChisq"})
-    R.expectSeen(k);
+  bool allComplete = true;
+  for (auto& st : R.stats) if (!st.complete) allComplete = false;
+  if (allComplete) {
+    R.expectSeen("invalid:exception");
+    R.expectSeen("invalid:documented-sentinel-or-signal");
+    R.expectSeen("ends:documented-value");
+    for (const char* k : {"line:pNorm", "line:gamma-cdf", "line:chisq-cdf", "line:pBeta", "line:qNorm", "line:qChisq", "line:qGamma", "line:qBeta",
+                          "branch:gamma:series", "branch:gamma:continued-fraction", "branch:beta:power-series", "branch:beta:tail-swapped", "branch:beta:continued-fraction-unswapped",
+                          "close-pairs-judged:pGamma", "close-pairs-judged:pChisq", "close-pairs-judged:pBeta", "close-pairs-judged:pNorm", "documented-sentinel-outside-documented-p-range:qChisq"})
+      R.expectSeen(k);
+  } else R.note("deadline reached before all spaces were executed (hanging cases): vacuity guards not applied");
   R.note("lattice and reference values come from oracle/C08_ref.py (scipy.special validated against 40-digit mpmath in the same run); the table carries the arguments bit-exactly");
   R.note("monotonicity is compared exactly (no tolerance) between grid neighbours; neighbours closer than 64 ulps (the ulp-clusters placed at branch switches) are judged against a derived rounding bound of the evaluation, because no floating-point evaluation is monotone between adjacent doubles");
   R.note("accuracy tolerances: documented accuracy + certified error of the reference (1e-12+1e-15 normal, 1e-12+1e-13 beta, 1e-8+2e-13 gamma-type); quantile inversion 1e-8 judged (a) against the exact cdf through certified quantile brackets and (b) against the library's own cdf; where doubles cannot resolve 1e-8 in probability (beta quantile within ulps of 1) the doubles adjacent to the exact inverse are accepted");
